@@ -600,6 +600,103 @@ func runR5(c *Ctx) {
 	if found == 0 {
 		c.undecided("qframe.QFrame.filter|use site", p.pos(fn.Pos()), "no lookup in a comparator-name table found in QFrame.filter: the negation shortcut changed shape")
 	}
+	// (3) the column whose type selects the table is the column that is filtered: no assignment to it in between
+	eachInstr(fn, func(in ssa.Instruction) {
+		call, ok := in.(*ssa.Call)
+		if !ok || !call.Call.IsInvoke() || call.Call.Method.Name() != "Filter" {
+			return
+		}
+		// only the shortcut call: its comparator argument comes from a string-table lookup
+		fromTable := false
+		if len(call.Call.Args) >= 2 {
+			if mi, ok := call.Call.Args[1].(*ssa.MakeInterface); ok {
+				if ex, ok := mi.X.(*ssa.Extract); ok {
+					if _, ok := ex.Tuple.(*ssa.Lookup); ok {
+						fromTable = true
+					}
+				}
+			}
+		}
+		if !fromTable {
+			return
+		}
+		recvPath := accessPath(call.Call.Value)
+		key := "use site|column identity"
+		bad := ""
+		// the type switch that selects the table: all its assertions on the filtered column
+		var sel []*ssa.TypeAssert
+		selBlocks := map[*ssa.BasicBlock]bool{}
+		eachInstr(fn, func(i2 ssa.Instruction) {
+			ta, ok := i2.(*ssa.TypeAssert)
+			if ok && ta.CommaOk && isColumnStruct(ta.AssertedType) && accessPath(ta.X) == recvPath && guardsTableSelection(ta) {
+				sel = append(sel, ta)
+				selBlocks[ta.Block()] = true
+			}
+		})
+		eachInstr(fn, func(i3 ssa.Instruction) {
+			st, ok := i3.(*ssa.Store)
+			if !ok || accessPath(st.Addr) != recvPath {
+				return
+			}
+			after := false
+			for _, ta := range sel {
+				if instrReaches(ta, st) {
+					after = true
+				}
+			}
+			if !after {
+				return
+			}
+			// can the call run after the store without the switch being evaluated again?
+			reach := st.Block() == call.Block() && precedes(st, call)
+			for _, s0 := range st.Block().Succs {
+				for _, r := range reachableAvoiding(s0, func(x *ssa.BasicBlock) bool { return selBlocks[x] }) {
+					if r == call.Block() {
+						reach = true
+					}
+				}
+			}
+			if reach && len(sel) > 0 {
+				bad = fmt.Sprintf("the column is replaced at %s after its type selected the inverse table (at %s) and before it is filtered (at %s): a column promoted to a nullable type is treated as never-null", p.instrPos(st), p.instrPos(sel[0]), p.instrPos(call))
+			}
+		})
+		if bad != "" {
+			c.bad(key, p.instrPos(call), bad)
+		} else {
+			c.ok(key, p.instrPos(call), "the filtered column is the one whose type selected the table")
+		}
+	})
+}
+
+// guardsTableSelection: the assertion's ok result decides between loads of different string tables.
+func guardsTableSelection(ta *ssa.TypeAssert) bool {
+	for _, r := range *ta.Referrers() {
+		ex, ok := r.(*ssa.Extract)
+		if !ok || ex.Index != 1 {
+			continue
+		}
+		for _, r2 := range *ex.Referrers() {
+			iff, ok := r2.(*ssa.If)
+			if !ok {
+				continue
+			}
+			// a successor (transitively, within a few blocks) loads a global string table
+			for _, s := range iff.Block().Succs {
+				for _, in := range s.Instrs {
+					if u, ok := in.(*ssa.UnOp); ok {
+						if g, ok := u.X.(*ssa.Global); ok {
+							if mt, ok := deref(g.Type()).Underlying().(*types.Map); ok {
+								if b, ok := mt.Elem().Underlying().(*types.Basic); ok && b.Kind() == types.String {
+									return true
+								}
+							}
+						}
+					}
+				}
+			}
+		}
+	}
+	return false
 }
 
 // typeReach: blocks and edges of fn reachable when the dynamic type of every type-asserted column
@@ -687,4 +784,23 @@ func feasibleGlobals(m ssa.Value, at *ssa.BasicBlock, T types.Type, d int) []str
 		return out
 	}
 	return nil
+}
+
+// reachesAvoidingBlock: b can execute after a on a path that does not pass through block avoid again
+// (so that the assertion in `avoid` is not re-evaluated in between).
+func reachesAvoidingBlock(a, b ssa.Instruction, avoid *ssa.BasicBlock) bool {
+	if a.Block() == b.Block() && precedes(a, b) && a != b {
+		return true
+	}
+	if a.Block() == avoid {
+		// after the assertion within its own block: continue from the successors
+	}
+	for _, s := range a.Block().Succs {
+		for _, r := range reachableAvoiding(s, func(x *ssa.BasicBlock) bool { return x == avoid }) {
+			if r == b.Block() {
+				return true
+			}
+		}
+	}
+	return false
 }
